@@ -76,7 +76,21 @@ func VerifC06OpenFile() {
 	eintr := rt.IntRange(0, rt.Param("R", 2))
 	fail := rt.Bool()
 	vFlockSchedule(fsys, eintr, fail)
+	// the truncation under the lock may fail; for a file that is not a
+	// regular file (a pipe, a device) that failure is ignored by design and
+	// the File is returned, still holding its lock
+	truncFails := rt.Bool()
+	nonRegular := false
+	if truncFails {
+		fsys.FailOp = "truncate"
+		if exists && rt.Bool() {
+			nonRegular = true
+			fsys.File(vPath).Mode |= os.ModeNamedPipe
+			rt.Reach("non-regular-file")
+		}
+	}
 	f, err := OpenFile(vPath, flag, 0o666)
+	fsys.FailOp = ""
 	if err != nil {
 		rt.Assert(f == nil, "error-returns-nil-file")
 		rt.Assert(fsys.OpenHandles(vPath) == 0, "descriptor-closed-on-error")
@@ -110,9 +124,13 @@ func VerifC06OpenFile() {
 		rt.Assert(!strings.HasPrefix(m, "trunc-on-open"), "no-truncate-at-open")
 	}
 	rt.Assert(!fsys.FDClosed(fd), "descriptor-open-while-held")
-	if flag&os.O_TRUNC != 0 {
+	if flag&os.O_TRUNC != 0 && !truncFails {
 		rt.Assert(len(fsys.File(vPath).Data) == 0, "truncated-under-the-lock")
 		rt.Reach("truncated")
+	}
+	if flag&os.O_TRUNC != 0 && truncFails {
+		rt.Assert(nonRegular, "failed-truncate-of-regular-file-is-reported")
+		rt.Reach("truncate-failure-ignored-for-non-regular-file")
 	}
 	// release
 	nFl := len(fsys.Flocks)
